@@ -181,6 +181,33 @@ CHECKS = {
             "Trusted: TLC, the stream capture of the harness. A non-JSON line prints nothing (adopted convention); the per-document "
             "status of a non-boolean under -b in NDJSON mode is not fixed by the statement.", "5/C20"),
 }
+
+# what the seeded-change rounds added to each check's exploration (appended to the level text)
+EXTRA = {
+    "C01": " Also: double negation (- - x, each negation checked), the operands spelled in hexadecimal, and arbitrary finite doubles (53-bit mantissas, "
+           "subnormal and near-overflow exponents) judged by the specification's round-to-nearest-even (RoundNE / RoundQuot).",
+    "C02": " The error leaves rotate through 21 kinds of failing sub-expression, including failures raised inside pendulum / codecs.",
+    "C03": " Number-literal spellings of MC_C07N, hostile identifier spellings and message literals are part of the program set; a sample of the programs "
+           "with bindings is evaluated a second time on the same program object with no bindings.",
+    "C04": " Leaves include the int / uint / timestamp / duration boundary values; every number spelling of MC_C07N, identifiers that are Python keywords or "
+           "attribute names of the implementation's objects, message literals (duplicate / missing / failing fields) and the extension macros on unordered "
+           "lists are evaluated as well.",
+    "C06": " Aggregates carry 2-3 entries (order is part of the tree), leaves include identifiers that begin with true / false / null / in and string "
+           "literals differing only in inner white space, and a comment may end the text.",
+    "C10": " A conversion, type(), size() or dyn() of an operand that fails -- directly or as the unabsorbed outcome of || && ?: ! -- must be that failure.",
+    "C12": " Identifier spellings that mean something to Python or to the implementation's objects must behave like any other name (SpellingIrrelevant); "
+           "bindings are listed in three different orders; a declared name bound to null is null.",
+    "C13": " Macro ranges cover no / one / several / only matching elements and maps; the double pool holds zero (division by it gives an infinity of "
+           "class double); uint literals are spelled with u and U.",
+    "C14": " Calls are strict (a failing argument is the call's outcome and the function is not invoked); the same call written or reached twice with "
+           "equal arguments must arrive twice.",
+    "C18": " Clause classes include a text that begins with ! but is a conditional (offhour with skip-days) and one that begins with ( and ends with ) but "
+           "is a conjunction of two groups (network-location).",
+    "C19": " present / absent are specified on attribute states (missing, null, value) for plain keys, nested keys and tags; emitted clauses and literals are "
+           "evaluated under both runner classes.",
+    "C20": " Under -b a non-boolean or failing document admits status 0 or 2 (both readings of the statement) and nothing else; documents hold U+2028 / "
+           "U+0085 / non-ASCII characters, escaped and raw.",
+}
 NOT_YET = "check not built yet in this phase (planned per DESIGN.md section 5)"
 
 
@@ -194,7 +221,7 @@ def main():
             "evidence_file": "/verif/evidence/%s.json" % pid,
             "replay_cmd_template": "./check %s --replay {path}" % pid,
             "engine": "tlc+replay",
-            "level_claimed": {"category": "model_checking", "text": text, "design_ref": "DESIGN.md section " + ref},
+            "level_claimed": {"category": "model_checking", "text": text + EXTRA.get(pid, ""), "design_ref": "DESIGN.md section " + ref},
             "level_note": note,
             "technique": tech,
         })
